@@ -306,6 +306,7 @@ PROPS = {
     },
     "C01": {
         "journal": True,
+        "reduce_died": True,
         "confirm_tries": 2,
         "quick": [
             {"test": "TestC01Total", "checks": 48000, "shards": 8},
